@@ -76,6 +76,22 @@ def clock_for(pki, which):
     return float(int(table[which]))
 
 
+def _displaced(ch, other, genuine):
+    """Report data (64 bytes) that does not BEGIN with the digest it has to commit to: another digest
+    altogether, or the right digest somewhere else in the field (second half, a few bytes in) behind
+    other bytes - genuinely signed all the same."""
+    how = ch.draw(4, "dis.binding.shape")
+    if how == 0:
+        return other + b"\x00" * 32
+    if how == 1:
+        return other + genuine
+    off = ch.pick([1, 7, 16, 31], "dis.binding.offset")
+    pad = (other * 2)[:off]
+    if pad[:1] == genuine[:1]:
+        pad = bytes([pad[0] ^ 0xFF]) + pad[1:]
+    return (pad + genuine + other)[:64]
+
+
 def dishonest(ch, now):
     """A chain built by an issuer that holds all keys: depth 1..3 of X.509, then key, then quote,
     with one optional deviation that keeps every signature valid for *some* key."""
@@ -105,9 +121,11 @@ def dishonest(ch, now):
     auth = ch.bytes(ch.pick([0, 16], "dis.auth"), "dis.authb") or b"\x00"
     custom = b"POWHSM:5.4::sgx" + ch.bytes(20, "dis.custom")
     krd = hashlib.sha256(att_sk.verifying_key.to_string() + auth).digest()
+    krd_field = krd + b"\x00" * 32
     if dev == "key-binding":
         krd = hashlib.sha256(b"other").digest()
-    qe_rb = sgxpki.report_body(krd + b"\x00" * 32)
+        krd_field = _displaced(ch, krd, krd_field[:32])
+    qe_rb = sgxpki.report_body(krd_field)
     key_signer = prev_sk
     key_parent = prev_name
     if dev == "key-by-ca" and depth >= 2:
@@ -119,9 +137,11 @@ def dishonest(ch, now):
         # not the P-256 key the property asks for)
         qe_sig = sgxpki.sign_der(key_signer, qe_rb)
     qrd = hashlib.sha256(custom).digest()
+    qrd_field = qrd + b"\x00" * 32
     if dev == "quote-binding":
         qrd = hashlib.sha256(custom + b"x").digest()
-    quote = b"\x03\x00\x02\x00" + b"\x00" * 44 + sgxpki.report_body(qrd + b"\x00" * 32)
+        qrd_field = _displaced(ch, qrd, qrd_field[:32])
+    quote = b"\x03\x00\x02\x00" + b"\x00" * 44 + sgxpki.report_body(qrd_field)
     q_signer = prev_sk if (dev == "quote-by-leaf" and prev_sk.curve == sgxpki.P256) else att_sk
     q_sig = sgxpki.sign_der(q_signer, quote)
     elems.append({"name": "attestation", "type": "sgx_attestation_key", "message": qe_rb.hex(),
